@@ -254,9 +254,9 @@ PROPS = {
         "claimed": True,
         "technique": "TLA+ enumeration of the value spaces and keyword tables of the typed field values (no state machine: pure encode/decode); every value and rejection probe replayed on the real FromStr/Display",
         "level_text": "spec/MCCodecs.tla holds the documented keyword tables of the seven enumerations and the value spaces of the record and prefixed types; TLC enumerates every keyword, every rejection probe (each keyword of every other table plus mangled forms) and every record value within scope; the harness checks from_str(to_string(v)) == v, that printing the parsed value gives the same text again, and that foreign keywords are rejected. This property is the thinnest fit for a TLA+ specification (DESIGN.md section 4): the spec contributes the tables and the exhaustive case list, nothing stateful is claimed.",
-        "level_note": "bounded scopes: 4 (8 thorough) tokens (ASCII, hex, path, non-ASCII, '0', '-', punctuation), sizes {0, 1, 2^31-1, 2^63}, 5 URLs (incl. an IPv6 literal and userinfo + port) x 2 branches x 2 subpaths; Urgency accepts case variants (not probed); parse_origin/format_origin are crate-private and exercised through the DEP-3 accessors (C15)",
+        "level_note": "bounded scopes: 5 (9 thorough) tokens (ASCII, lower- and upper-case hex digests, path, non-ASCII, '0', '-', punctuation), sizes {0, 1, 2^31-1, 2^63}, 5 URLs (incl. an IPv6 literal and userinfo + port) x 2 branches x 2 subpaths; Urgency accepts case variants (not probed); parse_origin/format_origin are crate-private and exercised through the DEP-3 accessors (C15)",
         "stages": [{"kind": "tlc_replay", "name": "codec_values", "module": "MCCodecs.tla", "cfg": "MCCodecs.cfg", "stage": "codecs",
-                    "consts": {"quick": {"NTok": 4}, "thorough": {"NTok": 8}},
+                    "consts": {"quick": {"NTok": 5}, "thorough": {"NTok": 9}},
                     "workers": {"quick": 4, "thorough": 8}, "timeout": {"quick": 300, "thorough": 600}}],
         "rule": "every enumerated value / keyword / rejection probe; all distinct",
         "exhaustive": {"quick": True, "thorough": True},
@@ -313,7 +313,7 @@ PROPS = {
                     "consts": {"quick": {"NSamples": 1, "Deep": "FALSE"}, "thorough": {"NSamples": 3, "Deep": "FALSE"}},
                     "workers": {"quick": 4, "thorough": 8}, "timeout": {"quick": 300, "thorough": 1200}},
                    {"kind": "tlc_replay", "name": "ep_codecs", "module": "MCCodecs.tla", "cfg": "MCCodecs.cfg", "stage": "ep_codecs",
-                    "consts": {"quick": {"NTok": 4}, "thorough": {"NTok": 8}},
+                    "consts": {"quick": {"NTok": 5}, "thorough": {"NTok": 9}},
                     "workers": {"quick": 4, "thorough": 8}, "timeout": {"quick": 300, "thorough": 600}},
                    {"kind": "tlc_replay", "name": "ep_pgp", "module": "MCPgp.tla", "cfg": "MCPgp.cfg", "stage": "ep_pgp",
                     "consts": {"quick": {"MaxPayload": 2, "SeqLen": 4}, "thorough": {"MaxPayload": 3, "SeqLen": 5}},
